@@ -90,6 +90,51 @@ def jtext(v):
     raise TypeError(repr(v))
 
 
+def esc_name(name, rng, mode):
+    """A member name written with escape sequences that JSON allows for ANY character (\\uXXXX): the
+    decoded name is the same string, so the frame denotes the same object.  mode: one | first | all."""
+    if not name:
+        return '""'
+    chars = list(name)
+    if mode == "all":
+        idx = set(range(len(chars)))
+    elif mode == "first":
+        idx = {0}
+    else:
+        idx = {rng.randrange(len(chars))}
+    out = ['"']
+    for i, ch in enumerate(chars):
+        c = ord(ch)
+        if i in idx and c < 0x10000:
+            out.append("\\u%04x" % c)
+        else:
+            out.append(jtext_str(ch)[1:-1])
+    out.append('"')
+    return "".join(out)
+
+
+def jtext_esc(v, rng, mode="one", depth=0, top_only=False):
+    """Like jtext, but every member name (of the envelope, and unless top_only of nested objects too)
+    is written with escape sequences.  String VALUES stay minimally escaped (borrowed &str targets)."""
+    if isinstance(v, list):
+        return "[" + ",".join(jtext_esc(x, rng, mode, depth + 1, top_only) for x in v) + "]"
+    if isinstance(v, Obj):
+        def name(k):
+            return esc_name(k, rng, mode) if (depth == 0 or not top_only) else jtext_str(k)
+        return "{" + ",".join(name(k) + ":" + jtext_esc(x, rng, mode, depth + 1, top_only) for k, x in v.ms) + "}"
+    return jtext(v)
+
+
+def no_dups_deep(v):
+    """No object anywhere in the value has two members of the same name (serde_json::Value cannot
+    represent such objects, so from_value is only comparable on these)."""
+    if isinstance(v, list):
+        return all(no_dups_deep(x) for x in v)
+    if isinstance(v, Obj):
+        return len(set(v.keys())) == len(v.ms) and all(no_dups_deep(x) for _, x in v.ms)
+    return True
+
+
 def jparse(text):
     """Parse JSON text into a tree, keeping member order, duplicates and float tokens."""
     return json.loads(text, object_pairs_hook=lambda ps: Obj(ps), parse_float=Flt)
